@@ -11,8 +11,9 @@
 (*   no event accepts a panic or a hang                                                       *)
 EXTENDS CoreTrace
 
-VARIABLE faultSeen    \* a fault was injected since the last heal
-fvars == <<vars, faultSeen>>
+VARIABLES faultSeen,    \* a fault was injected since the last heal
+          dirtyCommit   \* a commit failed and the caller kept the writer (recorded finding F40)
+fvars == <<vars, faultSeen, dirtyCommit>>
 
 Same == UNCHANGED <<pend, commd, lo, metaop, payload, wopen, wCreated, dirty, sorted, kf>>
 
@@ -70,6 +71,18 @@ FReload ==
      ELSE faultSeen
   /\ Same /\ UNCHANGED faultSeen
 
+\* Recorded finding F40: the commit task swaps the registers (uncommitted -> committed) BEFORE it
+\* saves the metas; when save_metas fails the commit reports the error, but if the caller keeps the
+\* writer, the next meta.json written by a merge publishes the segments of the failed commit with
+\* the old opstamp - a state that is neither the last commit nor the failed one.  Only in that
+\* window (dirtyCommit) an observation that differs from the last commit is attributed to F40.
+FMergeAfterFailedCommit ==
+  /\ Ev.ev = "merge" /\ wopen /\ dirtyCommit /\ "obs" \in DOMAIN Ev
+  /\ ObsConsistent(Ev.obs) /\ ObsDocs(Ev.obs) # commd
+  /\ Known("F40 a merge after a failed commit publishes segments of the failed commit")
+  /\ commd' = ObsDocs(Ev.obs) /\ metaop' = Ev.obs.metaop /\ payload' = Ev.obs.payload
+  /\ UNCHANGED <<pend, lo, wopen, wCreated, dirty, sorted, kf, faultSeen>>
+
 FSummary == Ev.ev = "summary" /\ Same /\ UNCHANGED faultSeen
 
 \* a dropped writer under a fault may leave its lock file if the delete itself failed: the harness
@@ -84,8 +97,11 @@ FStep ==
 \* successful calls follow CoreTrace unchanged; a successful merge keeps the content (TMerge)
 FMergeStep ==
   /\ l <= Len(Rec) /\ l' = l + 1 /\ UNCHANGED calling
-  /\ FMergeFail
-FNext == (TNext /\ (Ev.ev = "merge" => Ev.ok) /\ faultSeen' = (IF Ev.ev = "reset" THEN FALSE ELSE faultSeen)) \/ FStep \/ (FMergeStep)
-FInit == TInit /\ faultSeen = FALSE
+  /\ (FMergeFail \/ FMergeAfterFailedCommit)
+DirtyNext == dirtyCommit' = CASE Ev.ev \in {"commit", "prepare_commit"} /\ ~Ev.ok /\ Ev.err # "nowriter" -> TRUE
+                                [] Ev.ev \in {"reset", "rollback", "prepare_abort", "drop_writer", "new_writer", "wait_merges", "heal"} -> FALSE
+                                [] OTHER -> dirtyCommit
+FNext == ((TNext /\ (Ev.ev = "merge" => Ev.ok) /\ faultSeen' = (IF Ev.ev = "reset" THEN FALSE ELSE faultSeen)) \/ FStep \/ FMergeStep) /\ DirtyNext
+FInit == TInit /\ faultSeen = FALSE /\ dirtyCommit = FALSE
 FSpec == FInit /\ [][FNext]_fvars
 =============================================================================
